@@ -6,6 +6,7 @@ import NixModel.Drive.Units
 import NixModel.Drive.Region
 import NixModel.Drive.Array
 import NixModel.Drive.Store
+import NixModel.Drive.DimDesc
 /-
   nixmodel: reads a trace (op lines with the implementation's recorded result after `=>`),
   replays each op on the Lean model, evaluates the property relations on the implementation's
@@ -33,6 +34,9 @@ def step (st : DState) (line : String) : DState × Option String :=
     | some (st', o) => (st', some o.render)
     | none =>
     match Array.handle st op args impl with
+    | some (st', o) => (st', some o.render)
+    | none =>
+    match DimDesc.handle st op args impl with
     | some (st', o) => (st', some o.render)
     | none =>
     match Store.handle st op args impl with
